@@ -635,6 +635,7 @@ type pipe struct {
 	fin        bool // FIN delivered
 	rst        bool // RST delivered
 	wclosed    bool // writer end closed (FIN or RST sent)
+	aborted    bool // writer aborted the connection: segments still in flight are lost
 	rclosed    bool // reader end closed
 	rclosedHit int
 	lastAt     int64
@@ -666,7 +667,7 @@ func (sg *seg) Fire() {
 		rt.Probe(rt.PFin)
 		return
 	}
-	if p.rst || p.rclosed {
+	if p.rst || p.rclosed || p.aborted {
 		p.inflight -= len(sg.data)
 		return
 	}
@@ -690,7 +691,9 @@ type StreamConn struct {
 	id            int
 	peer          *StreamConn
 	blockedR      int
-	forcePlan     int // -1 = chosen per Write from the choice stream
+	forcePlan     int  // -1 = chosen per Write from the choice stream
+	writing       bool // a Write is in progress (possibly blocked on a full window)
+	linger0       bool // SetLinger(0): Close discards unsent data and resets the connection
 }
 
 // TCPConn is the simulated *net.TCPConn.
@@ -806,8 +809,30 @@ func (p *pipe) schedule(sg *seg, delay int64) {
 	rt.W.At(at, sg).Chain = uintptr(unsafe.Pointer(p))
 }
 
+type writeLock struct{ c *StreamConn }
+
+//go:norace
+func (w writeLock) Ready(*rt.Task) bool { return !w.c.writing || w.c.closed }
+
+// Write is atomic with respect to other Writes on the same connection, like net.Conn.Write (which holds
+// the descriptor's write lock for the whole call, however long it blocks on a full window).
+//
 //go:norace
 func (c *StreamConn) Write(b []byte) (int, error) {
+	if rt.Aborting() {
+		return len(b), nil
+	}
+	for c.writing && !c.closed {
+		rt.Block(writeLock{c}, 0, "Conn.Write (another Write in progress)", -1)
+	}
+	c.writing = true
+	n, err := c.write(b)
+	c.writing = false
+	return n, err
+}
+
+//go:norace
+func (c *StreamConn) write(b []byte) (int, error) {
 	if rt.Aborting() {
 		return len(b), nil
 	}
@@ -954,6 +979,22 @@ func (c *StreamConn) Close() error {
 	if c.closed {
 		return opErr("close", c.network, ErrClosed)
 	}
+	if c.linger0 {
+		// SO_LINGER with a zero timeout: close() discards whatever has not been delivered yet and sends a RST at once
+		c.out.aborted = true
+		c.closed = true
+		st().openSocks--
+		if !c.out.wclosed {
+			c.out.wclosed = true
+			rt.W.At(rt.Now(), &seg{p: c.out, rst: true})
+		}
+		c.in.rclosed = true
+		rt.Seq()
+		if rt.W.Verbose() {
+			rt.Tracef("stream#%d close with SO_LINGER 0 (RST, undelivered data discarded)", c.id)
+		}
+		return nil
+	}
 	c.closed = true
 	st().openSocks--
 	if c.blockedR > 0 {
@@ -1096,7 +1137,10 @@ func (c *StreamConn) SetKeepAlive(bool) error { return nil }
 func (c *StreamConn) SetKeepAlivePeriod(time.Duration) error { return nil }
 
 //go:norace
-func (c *StreamConn) SetLinger(int) error { return nil }
+func (c *StreamConn) SetLinger(sec int) error {
+	c.linger0 = sec == 0
+	return nil
+}
 
 //go:norace
 func (c *StreamConn) SetReadBuffer(int) error { return nil }
